@@ -228,17 +228,22 @@ class ECDSAKey(PKey):
         return m
 
     def verify_ssh_sig(self, data, msg):
-        if msg.get_text() != self.ecdsa_curve.key_format_identifier:
+        try:
+            sig_algorithm = msg.get_text()
+        except UnicodeDecodeError:
+            return False
+        if sig_algorithm != self.ecdsa_curve.key_format_identifier:
             return False
         sig = msg.get_binary()
         sigR, sigS = self._sigdecode(sig)
-        signature = encode_dss_signature(sigR, sigS)
 
         try:
+            # NOTE: raises ValueError for integers no signature can contain
+            signature = encode_dss_signature(sigR, sigS)
             self.verifying_key.verify(
                 signature, data, ec.ECDSA(self.ecdsa_curve.hash_object())
             )
-        except InvalidSignature:
+        except (ValueError, InvalidSignature):
             return False
         else:
             return True
